@@ -28,7 +28,8 @@ type Fn struct {
 // Case is an argument list, a caller-cancel point and a schedule.
 type Case struct {
 	Fns      []Fn   `json:"fns"`
-	CancelAt int    `json:"cancel_at"` // -1 never; 0 before the call; k>0 after k grants
+	CancelAt int    `json:"cancel_at"`          // -1 never; 0 before the call; k>0 after k grants
+	Deadline bool   `json:"deadline,omitempty"` // the caller's context ends like a deadline: its Err() is DeadlineExceeded
 	Sched    []byte `json:"sched"`
 }
 
@@ -44,6 +45,7 @@ func genCase(t *rapid.T) Case {
 	c := Case{Fns: rapid.SliceOfN(fn, 0, ev.Pick(6, 8)).Draw(t, "fns"), CancelAt: -1}
 	if rapid.IntRange(0, 2).Draw(t, "cancels") == 0 {
 		c.CancelAt = rapid.IntRange(0, 30).Draw(t, "cancel_at")
+		c.Deadline = rapid.IntRange(0, 2).Draw(t, "deadline") == 0
 	}
 	c.Sched = sched.GenSchedule(t, ev.Pick(100, 300))
 	return c
@@ -126,6 +128,9 @@ func body(c *sched.Ctl, cs Case, v *ev.Verdict) {
 		}
 	}
 	ctx, cancel := context.WithCancel(context.Background())
+	if cs.Deadline {
+		ctx = deadlineLike{ctx}
+	}
 	callerCancelled := false
 	if cs.CancelAt == 0 {
 		cancel()
@@ -282,6 +287,21 @@ func body(c *sched.Ctl, cs Case, v *ev.Verdict) {
 	if cs.CancelAt >= 0 {
 		v.Class("caller-cancel")
 	}
+	if cs.Deadline {
+		v.Class("caller-context-ends-with-deadline-exceeded")
+	}
+}
+
+// deadlineLike is a context that ends the way an expired deadline does: Done
+// closes and Err reports context.DeadlineExceeded (its children are cancelled
+// as usual). CallConcurrently must still answer context.Canceled.
+type deadlineLike struct{ context.Context }
+
+func (d deadlineLike) Err() error {
+	if d.Context.Err() != nil {
+		return context.DeadlineExceeded
+	}
+	return nil
 }
 
 func countNil(f []Fn) int {
@@ -309,7 +329,7 @@ func describe(fns []Fn, snaps any) string {
 func TestC17(t *testing.T) {
 	ev.Drive(t, ev.Runner[Case]{
 		Prop: P,
-		Rule: "argument list of 0..8 functions incl. nil entries; each function scripted {nil, distinct error, context.Canceled, block until its ctx is cancelled then return nil|err|ctx.Err()}, parked at entry so that the schedule decides completion order relative to every Broadcast critical section of the caller; optional caller cancel before the call or after k grants; non-trivial iff >= 2 non-nil functions, >= 1 failing, and the caller was parked right after one of its critical sections while a function's bookkeeping section ran; distinct by hash(case, realised grant trace)",
+		Rule: "argument list of 0..8 functions incl. nil entries; each function scripted {nil, distinct error, context.Canceled, block until its ctx is cancelled then return nil|err|ctx.Err()}, parked at entry so that the schedule decides completion order relative to every Broadcast critical section of the caller; optional caller cancel before the call or after k grants (1/3 of them through a context whose Err() is DeadlineExceeded); non-trivial iff >= 2 non-nil functions, >= 1 failing, and the caller was parked right after one of its critical sections while a function's bookkeeping section ran; distinct by hash(case, realised grant trace)",
 		Gen:  genCase,
 		Run:  run,
 	})
